@@ -23,6 +23,16 @@ def InBucket (e : Env) (b : Bytes) (q : List Comp) : Prop :=
 def StrictlyInBucket (e : Env) (b : Bytes) (q : List Comp) : Prop :=
   ∃ bn rest, components b = [.normal bn] ∧ rest ≠ [] ∧ q = components e.root ++ .normal bn :: rest.map .normal
 
+/-- the component list of an absolute location without `.`/`..`: the root directory, then names. A location of
+    this form denotes, under POSIX resolution without symbolic links, exactly the node reached by descending
+    through those names -/
+def NoDots (l : List Comp) : Prop := ∃ m, l = .rootDir :: m ∧ ∀ c ∈ m, ∃ n, c = .normal n
+
+/-- the location a table entry is anchored at is dot-free -/
+def TgtOk : Tgt → Prop
+  | .path p | .subtree p | .dirChain p => NoDots (components p)
+  | .childrenPrefixed dir _ => NoDots (components dir)
+
 /-- buckets whose directory the operation may read, create, change and delete in -/
 def writeBuckets : Op → List Bytes
   | .createBucket b | .deleteBucket b => [b]
